@@ -192,6 +192,8 @@ fn run_case(seed: u64, idx: u64) -> CaseOut {
     let replay = format!("{seed}:{idx}");
     // a third of the histories end with a live bar changing its terminal
     let tail = if rng.chance(1, 3) { rng.range(1, 3) } else { 0 };
+    // the kind of error the terminal reports (no kind is a licence to swallow the failure)
+    let err_kind = rng.below(crate::spy::FAULT_KINDS.len() as u64) as u8;
     let base = run_one(&cfg, &ops, FaultPlan::default(), tail);
     let mut co = CaseOut::held(fnv1a(format!("{cfg:?}{ops:?}").as_bytes()), base.calls >= 4);
     let w = |k: u64, later: bool| {
@@ -199,6 +201,7 @@ fn run_case(seed: u64, idx: u64) -> CaseOut {
             .with("terminal", format!("{}x{} multi={} move_cursor={}", cfg.width, cfg.height, cfg.multi, cfg.move_cursor))
             .with("ops", J::Arr(ops.iter().map(|o| o.to_json()).collect()))
             .with("tail", ["none", "set_draw_target", "add to a second MultiProgress", "re-add to its own MultiProgress"][tail as usize])
+            .with("error_kind", format!("{:?}", crate::spy::FAULT_KINDS[err_kind as usize]))
             .with("fail_call", k)
             .with("and_all_later", later)
     };
@@ -214,14 +217,14 @@ fn run_case(seed: u64, idx: u64) -> CaseOut {
     let mut injected = 0u64;
     for k in ks {
         for later in [false, true] {
-            let r = run_one(&cfg, &ops, FaultPlan { fail_at: k, and_later: later }, tail);
+            let r = run_one(&cfg, &ops, FaultPlan { fail_at: k, and_later: later, kind: err_kind }, tail);
             points += 1;
             injected += r.faults;
             for (op, call) in &r.pairs {
                 co.see("op_x_terminal_call_pairs_hit", fnv1a(format!("{op}:{call:?}").as_bytes()));
             }
             if let Some((rule, d, opname)) = r.bad {
-                co.verdict = viol(rule, vec![format!("in-{opname}"), if cfg.move_cursor { "multi-move-cursor".into() } else if multi { "multi".into() } else { "single".into() }], format!("fail terminal call {k}{}: {d}", if later { " and all later ones" } else { "" }), w(k, later), replay.clone());
+                co.verdict = viol(rule, vec![format!("in-{opname}"), format!("{:?}", crate::spy::FAULT_KINDS[err_kind as usize]), if cfg.move_cursor { "multi-move-cursor".into() } else if multi { "multi".into() } else { "single".into() }], format!("fail terminal call {k}{}: {d}", if later { " and all later ones" } else { "" }), w(k, later), replay.clone());
                 co.count("fault_points_enumerated", points);
                 return co;
             }
@@ -251,7 +254,7 @@ pub fn run(cfg: &RunCfg) -> PropResult {
     };
     PropResult {
         report,
-        rule: "each evaluation: one base history (3-14 generated operations plus the revealing suffix: ticks, position/length updates, texts with tabs, set_tab_width, println, suspend, finish*/abandon*, drop, and for MultiProgress worlds add/insert/remove/mp.println/mp.clear/mp.suspend, half of them with set_move_cursor(true); a third of the histories end with a live bar changing its terminal: set_draw_target, add to a second MultiProgress, re-add to its own) is run fault-free to count its n terminal calls and then re-run 2n times: for EVERY k in 1..=n once with only call k failing and once with call k and all later calls failing (exhaustive in k up to 400 calls); after each faulty run a probe battery (10 calls per bar, 3 on the MultiProgress, then drop) must not panic, io::Result-returning calls must have reported the error, getters must equal the fault-free model; non-trivial = the history makes at least 4 terminal calls".into(),
+        rule: "each evaluation: one base history (3-14 generated operations plus the revealing suffix: ticks, position/length updates, texts with tabs, set_tab_width, println, suspend, finish*/abandon*, drop, and for MultiProgress worlds add/insert/remove/mp.println/mp.clear/mp.suspend, half of them with set_move_cursor(true); a third of the histories end with a live bar changing its terminal: set_draw_target, add to a second MultiProgress, re-add to its own) is run fault-free to count its n terminal calls and then re-run 2n times: for EVERY k in 1..=n once with only call k failing and once with call k and all later calls failing (exhaustive in k up to 400 calls; the injected errors carry one of 7 io::ErrorKinds per history: Other, BrokenPipe, Interrupted, WouldBlock, TimedOut, WriteZero, UnexpectedEof); after each faulty run a probe battery (10 calls per bar, 3 on the MultiProgress, then drop) must not panic, io::Result-returning calls must have reported the error, getters must equal the fault-free model; non-trivial = the history makes at least 4 terminal calls".into(),
         exhaustive: false,
     }
 }
